@@ -21,7 +21,7 @@ QUICK_OPS = ["insert", "addchild", "pop", "delitem", "setitem", "extend", "remov
 
 def run_condition(args):
     path, line, timeout, p, o = args
-    env = dict(os.environ, PYTHONPATH=core.VERIF, PSYCLONE_CONFIG=os.environ["PSYCLONE_CONFIG"])
+    env = dict(os.environ, PYTHONPATH=core.VERIF + os.pathsep + os.environ.get("PYTHONPATH", ""), PSYCLONE_CONFIG=os.environ["PSYCLONE_CONFIG"])
     cmd = [sys.executable, "-m", "crosshair", "check", "--report_all",
            "--per_condition_timeout", str(timeout), "--per_path_timeout", str(max(5, timeout // 4)),
            f"{path}:{line}"]
